@@ -400,6 +400,11 @@ def _hints_from_signature(obj: tp.Union[type, tp.Callable]) -> dict[str, type[tp
             hints[name] = annotation
             continue
         if annotation.__class__ is str:
+            # (A type parameter can only be bound in the evaluated annotation: `items: "list[T]"`.)
+            hint = evaluated.get(name)
+            if isinstance(hint, tp.TypeVar) or getattr(hint, "__parameters__", ()):
+                hints[name] = hint
+                continue
             ref = refs.forwardref(annotation, is_argument=True, module=module)
             hints[name] = ref
             continue
